@@ -29,7 +29,7 @@ pub fn partial_assignments(n: u32) -> Vec<Vec<i32>> {
 
 /// random lists with duplicates and contradictions; lengths straddle the strategy boundaries
 pub fn random_lists(rng: &mut Rng, n: u32, how_many: usize) -> Vec<Vec<i32>> {
-    let lens = [1usize, 2, 3, 5, 19, 20, 21, 22, 40];
+    let lens = [1usize, 2, 3, 5, 19, 20, 21, 22, 40, 70, 130, 300, 1000];
     let mut out = Vec::new();
     for i in 0..how_many {
         let len = lens[i % lens.len()];
@@ -267,7 +267,7 @@ pub fn c02(a: &Args) {
     corpus_c02(a, &mut out, &mut r2);
     crate::cli_props::cli_pass(a, &mut out, &mut rng, &["count", "count-queries"]);
     crate::shifted_props::shifted(a, &mut out, &mut rng, &["query"]);
-    out.finish("(+ renumbered models: features base+1..base+n for base 126 / 254 / 1020, judged by the small model's truth table: query) (+ CLI pass: the rebuilt binary's `count / count-queries` on a sample of the models) every model of the C01 space x (all 3^n consistent partial assignments for n<=5 quick / n<=7 thorough, else 200 random ones) + random lists with duplicates/contradictions of lengths 1,2,3,5,19,20,21,22,40; non-trivial = non-constant function and non-empty list; distinct by (file text, list)");
+    out.finish("(+ renumbered models: features base+1..base+n for base 126 / 254 / 1020, judged by the small model's truth table: query) (+ CLI pass: the rebuilt binary's `count / count-queries` on a sample of the models) every model of the C01 space x (all 3^n consistent partial assignments for n<=5 quick / n<=7 thorough, else 200 random ones) + random lists with duplicates/contradictions of lengths 1,2,3,5,19,20,21,22,40,70,130,300,1000; non-trivial = non-constant function and non-empty list; distinct by (file text, list)");
 }
 
 fn corpus_c02(a: &Args, out: &mut Out, rng: &mut Rng) {
